@@ -124,6 +124,7 @@ type Sched struct {
 	enBuf       []trans
 	slow        map[int]bool
 	slowFrom    int
+	eagerTimers bool
 
 	ticks        int
 	lastTickStep int
@@ -158,6 +159,9 @@ type Config struct {
 	// SlowFrom: the demotion starts once this many transitions were executed.
 	Slow     map[int]bool
 	SlowFrom int
+	// EagerTimers: pending one-shot timers fire before anything else runs
+	// ("time passes quickly"): their transitions are ordered first.
+	EagerTimers bool
 	// Fast: default schedule only, no Trace recorded: the first enabled
 	// transition in canonical order is taken without computing the others
 	// (same schedule as an empty Prefix; for deterministic single executions).
@@ -169,7 +173,7 @@ type Config struct {
 func Run(cfg Config, body func()) *Sched {
 	s := &Sched{prefix: cfg.Prefix, ack: make(chan struct{}), finished: make(chan struct{}),
 		closed: map[uintptr]bool{}, exited: make(chan struct{}, 4096),
-		MaxTicks: cfg.MaxTicks, EarlyTimers: cfg.EarlyTimers, MaxSteps: cfg.MaxSteps, Verbose: cfg.Verbose, onDeadlock: cfg.OnDeadlock, fast: cfg.Fast && len(cfg.Prefix) == 0 && len(cfg.Slow) == 0, slow: cfg.Slow, slowFrom: cfg.SlowFrom}
+		MaxTicks: cfg.MaxTicks, EarlyTimers: cfg.EarlyTimers, MaxSteps: cfg.MaxSteps, Verbose: cfg.Verbose, onDeadlock: cfg.OnDeadlock, fast: cfg.Fast && len(cfg.Prefix) == 0 && len(cfg.Slow) == 0 && !cfg.EagerTimers, slow: cfg.Slow, slowFrom: cfg.SlowFrom, eagerTimers: cfg.EagerTimers}
 	if s.MaxTicks == 0 {
 		s.MaxTicks = 4
 	}
@@ -473,7 +477,18 @@ func (s *Sched) schedule(t *Thread, exiting bool) {
 			}
 		}
 		s.enBuf = en[:0]
-		if s.EarlyTimers && len(en) > 0 {
+		if s.eagerTimers && len(en) > 0 {
+			var first []trans
+			for _, tm := range s.timers {
+				if !tm.dead && tm.period == 0 {
+					first = append(first, trans{tm: tm})
+				}
+			}
+			if len(first) > 0 {
+				en = append(first, en...)
+				curEnabled = false
+			}
+		} else if s.EarlyTimers && len(en) > 0 {
 			for _, tm := range s.timers {
 				if !tm.dead && tm.period == 0 {
 					en = append(en, trans{tm: tm})
